@@ -371,8 +371,8 @@ import harness.C17 as _c17      # noqa: E402
            rejects=(), must_cover=["rewound", "abandoned", "finished"], cfg={"path_timeout_s": 20},
            stubs=["as C17.rewind"],
            bounds={"quick": dict(shapes=["path5", "comb5"], calls=7, nrewind=(2, 3), rw_maxiter=(2,), all_subsets=False, attempts=1),
-                   "thorough": dict(shapes=["path5", "path6", "comb5", "ring5"], calls=9, nrewind=(2, 4), rw_maxiter=(2, 3), all_subsets=True, attempts=2)},
-           budget={"quick": 200, "thorough": 900})
+                   "thorough": dict(shapes=["path5", "path6", "comb5", "ring5"], calls=8, nrewind=(2, 4), rw_maxiter=(2, 3), all_subsets=False, attempts=2)},
+           budget={"quick": 200, "thorough": 1500})
 def rewind_supplied(sx, B):
     """A failed placement attempt never alters or discards supplied coordinates - also when the supplied residue lies between built
     residues inside the rewind window: the C17 harness (real run_system under every failure schedule and rewind depth) on chains with
